@@ -826,8 +826,9 @@ func (r *runner) checkHeldKeys(what string) []string {
 // (what wallet/psbt.go writes into Bip32Derivation entries for external signers) — is what the object returned by
 // nextAddresses reported when the address was issued, on every later look-up (cache hit, after MarkUsed dropped the
 // cache entry, after a restart), and the fingerprint is the one the account was imported with (0 for seed accounts).
-// Addresses made by extendAddresses are left out: on the unchanged tree their cached object reports fingerprint 0
-// until it is re-read from its row (notes/C03.md, observation 5; modelled).
+// Addresses made by extendAddresses (which returns no objects) are held to the same: the first look-up is the
+// reference for the later ones, and the fingerprint must be the account's from the start (before
+// repo-patches/fix-C08-extendAddresses-fingerprint.diff the cached object reported 0 until it was re-read from its row).
 func (r *runner) checkDerivInfo(h *handle, op string) []string {
 	if !h.chained || h.ma == nil {
 		return nil
@@ -837,7 +838,15 @@ func (r *runner) checkDerivInfo(h *handle, op string) []string {
 		return nil
 	}
 	d := ckey(h.scope, h.acct, h.br, h.idx)
-	if !strings.HasPrefix(r.originOf[d], "nextAddresses") || strings.HasPrefix(h.origin, "deriveFromKeyPath") {
+	if strings.HasPrefix(h.origin, "deriveFromKeyPath") {
+		return nil // DeriveFromKeyPath reports the path the caller passed in
+	}
+	kNot, kDiff, kC08, how := "derivationInfo.fingerprint-not-the-accounts", "derivationInfo.fingerprint-differs-after-reload", "Address.restart.derivation-info-differs", "issued (nextAddresses)"
+	switch {
+	case strings.HasPrefix(r.originOf[d], "nextAddresses"):
+	case strings.HasPrefix(r.originOf[d], "extendAddresses"):
+		kNot, kDiff, kC08, how = "extendAddresses.fingerprint-not-the-accounts", "extendAddresses.fingerprint-differs-after-reload", "ExtendAddresses.restart.fingerprint-differs", "made by extendAddresses and first looked up"
+	default:
 		return nil
 	}
 	pk, ok := h.ma.(waddrmgr.ManagedPubKeyAddress)
@@ -852,17 +861,58 @@ func (r *runner) checkDerivInfo(h *handle, op string) []string {
 		path.InternalAccount, path.Account, path.Branch, path.Index, path.MasterKeyFingerprint)
 	var v []string
 	if path.MasterKeyFingerprint != m.fp {
-		v = append(v, fmt.Sprintf("C03 key=derivationInfo.fingerprint-not-the-accounts: DerivationInfo of %s (%s) reports master key fingerprint %d, account %d of scope %s was imported with fingerprint %d", d, op, path.MasterKeyFingerprint, h.acct, h.scope, m.fp))
+		v = append(v, fmt.Sprintf("C03 key=%s: DerivationInfo of %s (%s) reports master key fingerprint %d, account %d of scope %s was imported with fingerprint %d", kNot, d, op, path.MasterKeyFingerprint, h.acct, h.scope, m.fp))
 	}
-	if op == "nextAddresses" {
+	first, seen := r.issuedInfo[d]
+	if len(v) > 0 || (seen && op != "nextAddresses" && first != cur) {
+		// something is off: ask a manager freshly opened on the same database (C08's own sentence, evaluated directly)
+		if fresh, ok := r.freshDerivInfo(h); ok && fresh != cur {
+			v = append(v, fmt.Sprintf("C08 key=%s: %s (%s): the running manager reports %s, a manager freshly opened on the same database reports %s", kC08, d, op, cur, fresh))
+		}
+	}
+	if op == "nextAddresses" || !seen {
 		r.issuedInfo[d] = cur
 		return v
 	}
-	if first, ok := r.issuedInfo[d]; ok && first != cur {
-		v = append(v, fmt.Sprintf("C03 key=derivationInfo.fingerprint-differs-after-reload: %s was issued with derivation info %s, a later look-up (%s) reports %s", d, first, op, cur))
-		v = append(v, fmt.Sprintf("C08 key=Address.restart.derivation-info-differs: %s: the object cached at issue time reported %s, the object rebuilt from the database row (%s) reports %s", d, first, op, cur))
+	if first != cur {
+		v = append(v, fmt.Sprintf("C03 key=%s: %s was %s with derivation info %s, a later look-up (%s) reports %s", kDiff, d, how, first, op, cur))
+		v = append(v, fmt.Sprintf("C08 key=%s: %s: the object cached when the address was %s reported %s, the object rebuilt from the database row (%s) reports %s", kC08, d, how, first, op, cur))
 	}
 	return v
+}
+
+// freshDerivInfo: what a second Manager, opened on the same database right now, reports for the address of h.
+func (r *runner) freshDerivInfo(h *handle) (string, bool) {
+	out, ok := "", false
+	_ = walletdb.View(r.db, func(tx walletdb.ReadTx) error {
+		ns := tx.ReadBucket(nsKey)
+		m2, err := waddrmgr.Open(ns, r.keys.pubPasses[r.pubPass], netParams)
+		if err != nil {
+			return nil
+		}
+		defer m2.Close()
+		sc, _ := parseScope(h.scope)
+		sm2, err := m2.FetchScopedKeyManager(sc)
+		if err != nil {
+			return nil
+		}
+		ma, err := sm2.Address(ns, h.ma.Address())
+		if err != nil {
+			return nil
+		}
+		pk, isKey := ma.(waddrmgr.ManagedPubKeyAddress)
+		if !isKey {
+			return nil
+		}
+		scope, path, has := pk.DerivationInfo()
+		if !has {
+			return nil
+		}
+		out, ok = fmt.Sprintf("{scope:%d:%d internalAccount:%d account:%d branch:%d index:%d masterKeyFingerprint:%d}", scope.Purpose, scope.Coin,
+			path.InternalAccount, path.Account, path.Branch, path.Index, path.MasterKeyFingerprint), true
+		return nil
+	})
+	return out, ok
 }
 
 var wtxNS = []byte("wtxmgr")
